@@ -1,0 +1,106 @@
+//go:build verif
+
+package export
+
+import (
+	"context"
+	"io"
+
+	"github.com/go-task/task/v3/internal/env"
+	"github.com/go-task/task/v3/internal/execext"
+	"github.com/go-task/task/v3/internal/fingerprint"
+	"github.com/go-task/task/v3/internal/hash"
+	"github.com/go-task/task/v3/internal/logger"
+	"github.com/go-task/task/v3/internal/output"
+	"github.com/go-task/task/v3/internal/templater"
+	"github.com/go-task/task/v3/taskfile/ast"
+)
+
+// ---- internal/output
+
+type (
+	Output            = output.Output
+	OutputGroup       = output.Group
+	OutputPrefixed    = output.Prefixed
+	OutputCloseFunc   = output.CloseFunc
+	OutputInterleaved = output.Interleaved
+)
+
+var (
+	OutputBuildFor    = output.BuildFor
+	OutputNewPrefixed = output.NewPrefixed
+)
+
+// ---- internal/logger
+
+type Logger = logger.Logger
+
+// ---- internal/templater
+
+type TemplaterCache = templater.Cache
+
+func TemplaterReplace(s string, c *TemplaterCache) string { return templater.Replace(s, c) }
+func TemplaterReplaceWithExtra(s string, c *TemplaterCache, extra map[string]any) string {
+	return templater.ReplaceWithExtra(s, c, extra)
+}
+func TemplaterReplaceVars(vars *ast.Vars, c *TemplaterCache) *ast.Vars {
+	return templater.ReplaceVars(vars, c)
+}
+
+var (
+	TemplaterResolveRef   = templater.ResolveRef
+	TemplaterReplaceGlobs = templater.ReplaceGlobs
+	TemplaterReplaceVar   = templater.ReplaceVar
+)
+
+// ---- internal/fingerprint
+
+type (
+	SourcesCheckable = fingerprint.SourcesCheckable
+	ChecksumChecker  = fingerprint.ChecksumChecker
+	TimestampChecker = fingerprint.TimestampChecker
+	CheckerOption    = fingerprint.CheckerOption
+)
+
+var (
+	FingerprintGlobs               = fingerprint.Globs
+	FingerprintNewSourcesChecker   = fingerprint.NewSourcesChecker
+	FingerprintNewChecksumChecker  = fingerprint.NewChecksumChecker
+	FingerprintNewTimestampChecker = fingerprint.NewTimestampChecker
+	FingerprintWithMethod          = fingerprint.WithMethod
+	FingerprintWithDry             = fingerprint.WithDry
+	FingerprintWithTempDir         = fingerprint.WithTempDir
+	FingerprintWithLogger          = fingerprint.WithLogger
+)
+
+func FingerprintIsTaskUpToDate(ctx context.Context, t *ast.Task, opts ...CheckerOption) (bool, error) {
+	return fingerprint.IsTaskUpToDate(ctx, t, opts...)
+}
+
+// ---- internal/env
+
+var (
+	EnvGet         = env.Get
+	EnvGetFromVars = env.GetFromVars
+	EnvGetEnviron  = env.GetEnviron
+)
+
+// ---- internal/hash
+
+var (
+	HashEmpty = hash.Empty
+	HashName  = hash.Name
+	HashHash  = hash.Hash
+)
+
+// ---- internal/execext
+
+type RunCommandOptions = execext.RunCommandOptions
+
+var (
+	ExecRunCommand    = execext.RunCommand
+	ExecExpandLiteral = execext.ExpandLiteral
+	ExecExpandFields  = execext.ExpandFields
+)
+
+var _ io.Writer
